@@ -1256,17 +1256,20 @@ theorem open_image (D X : Bytes) (L c : Nat) (hd : D.length % 1020 = 0) (hphys :
   rw [Nat.mod_eq_of_lt hL, Nat.mod_eq_of_lt hlc, Nat.mod_eq_of_lt hxl] at hread
   obtain ⟨r0, er, ho, _, _⟩ := pr_new_image D 48 hd hne
   obtain ⟨d1, d2, _⟩ := pr_new_data _ _ _ er
-  have hat0 : Layout.At D r0 0 := ⟨pr_new_inv _ _ _ er, d2, d1, ho⟩
+  -- the header page check passes: every page of an image is valid
+  obtain ⟨rc, hchk, oc, ic, _, pc, dc⟩ :=
+    checkHeaderPage_image D r0 hd hne (pr_new_inv _ _ _ er) d2 d1
+  have hat0 : Layout.At D rc 48 := ⟨ic, pc, dc, oc⟩
   obtain ⟨r1, e1, a1⟩ := Layout.seek_at hd c hat0 (by omega)
   obtain ⟨r2, e2, a2⟩ := Layout.readExact_holds hd X a1 (Layout.Holds.of_slice D c X hX hXne)
-  have hext : extractXml r0 (l2p c) X.length = some (r2, X) := by
+  have hext : extractXml rc (l2p c) X.length = some (r2, X) := by
     unfold extractXml
     rw [if_neg (Nat.not_lt.mpr hmax), e1]
     simp only [e2]
   refine ⟨r2, BlobRT.healthy_of_at a2, ?_⟩
   intro xo fp
   unfold Reader.open
-  simp only [hread, er, Outcome.toOption, hext, Option.bind_eq_bind, Option.bind_some]
+  simp only [hread, er, Outcome.toOption, hchk, hext, Option.bind_eq_bind, Option.bind_some]
 
 /-! # Part 11 — reading the items back -/
 
